@@ -7,7 +7,7 @@ bound are explored breadth-first, deduplicated by the canonical state of object 
 judged transition must return exactly what the same event returns on a fresh, equally configured
 object, and the library's module-level / class-level state must stay what it was at import."""
 import copy
-from mc.engine import HSystem, hsub, canon, library_globals, diff_globals, h8
+from mc.engine import HSystem, hsub, canon, library_globals, diff_globals, h8, pristine
 from mc.common import ramp, expander
 
 m1 = b'abc'
@@ -35,32 +35,6 @@ def obs(v):
 
 _PRISTINE = {}
 _GLOBALS0 = {}
-
-
-def pristine(f):
-    """run f() in a forked child, so that nothing it does to module-level state survives, and - when called before this
-    process has used the library - so that it starts from the import-time state"""
-    import os, pickle
-    r, w = os.pipe()
-    pid = os.fork()
-    if pid == 0:
-        try:
-            os.close(r)
-            out = pickle.dumps(f())
-        except BaseException as e:      # noqa
-            out = pickle.dumps(('exc', 'harness:' + type(e).__name__))
-        os.write(w, out)
-        os._exit(0)
-    os.close(w)
-    buf = b''
-    while True:
-        c = os.read(r, 1 << 16)
-        if not c:
-            break
-        buf += c
-    os.close(r)
-    os.waitpid(pid, 0)
-    return pickle.loads(buf)
 
 
 class Kind(HSystem):
